@@ -39,32 +39,32 @@ type Exchange struct {
 	Nonce     string        `json:"nonce"`
 	ReqErr    string        `json:"req_err,omitempty"`
 
-	Status      int           `json:"status"`
-	RespHeaders [][2]string   `json:"resp_headers,omitempty"`
-	BodyWrote   []byte        `json:"-"`
-	BodyPlanned int           `json:"body_planned"`
-	HeadersSent bool          `json:"headers_sent"`
-	Completed   bool          `json:"completed"`
-	FaultFired  string        `json:"fault,omitempty"`
-	WriteErr    string        `json:"write_err,omitempty"`
-	DoneAt      time.Duration `json:"done_at"`
-	PeerGoneAt  time.Duration `json:"peer_gone_at,omitempty"`
-	GateTimeout bool          `json:"gate_timeout,omitempty"`
+	Status      int             `json:"status"`
+	RespHeaders [][2]string     `json:"resp_headers,omitempty"`
+	BodyWrote   []byte          `json:"-"`
+	BodyPlanned int             `json:"body_planned"`
+	HeadersSent bool            `json:"headers_sent"`
+	Completed   bool            `json:"completed"`
+	FaultFired  string          `json:"fault,omitempty"`
+	WriteErr    string          `json:"write_err,omitempty"`
+	DoneAt      time.Duration   `json:"done_at"`
+	PeerGoneAt  time.Duration   `json:"peer_gone_at,omitempty"`
+	GateTimeout bool            `json:"gate_timeout,omitempty"`
 	ChunkAt     []time.Duration `json:"chunk_at,omitempty"`
-	Attempt     int           `json:"attempt"` // a-th exchange with this nonce on this backend
+	Attempt     int             `json:"attempt"` // a-th exchange with this nonce on this backend
 }
 
 type Backend struct {
-	sim  *Sim
-	cfg  *EndpointCfg
-	ln   *Listener
-	mu   sync.Mutex
-	exch []*Exchange
+	sim                    *Sim
+	cfg                    *EndpointCfg
+	ln                     *Listener
+	mu                     sync.Mutex
+	exch                   []*Exchange
 	nProxy, nHealth, nList int
-	perNonce map[string]int
-	models   []string
-	stopped  bool
-	inSvc    map[*Exchange]*Conn
+	perNonce               map[string]int
+	models                 []string
+	stopped                bool
+	inSvc                  map[*Exchange]*Conn
 }
 
 // InFlightOpen counts proxied exchanges currently being served whose
